@@ -41,7 +41,9 @@ type Client struct {
 	sessOp        string          // "", "register", "unregister", "dead-propose": what the outstanding request is
 	regSess       *client.Session // session being registered / unregistered
 	deadSess      *client.Session // a session that was unregistered (proposals with it must be Rejected)
-	retry         *histOp         // a session proposal whose outcome is unknown: retried with the same series id
+	chase         bool            // the next operation is a read of chaseKey
+	chaseKey      byte
+	retry         *histOp // a session proposal whose outcome is unknown: retried with the same series id
 	retryCmd      []byte
 	final         bool
 	finalLeft     int
@@ -204,6 +206,12 @@ func (c *Client) act() {
 	default:
 		key := byte(s.src.Intn(s.cfg.Keys))
 		isRead := s.src.Intn(100) < s.cfg.ReadMix
+		if c.chase && !c.final {
+			// right after an acknowledged write: read that key (on whichever
+			// replica was picked), the read that has most to lose
+			key, isRead = c.chaseKey, true
+		}
+		c.chase = false
 		if c.final {
 			// the last operations of every client: a write then a read
 			isRead = c.finalLeft == 1
@@ -327,6 +335,9 @@ func (c *Client) poll() {
 				res := r.GetResult()
 				s.orc.onWriteCompleted(c, op, res)
 				s.orc.recordOp(op)
+				if s.src.Chance(1, 2) {
+					c.chase, c.chaseKey = true, op.key
+				}
 				if useSessions && c.session != nil {
 					c.session.ProposalCompleted()
 					c.retry = nil
@@ -339,6 +350,12 @@ func (c *Client) poll() {
 			} else {
 				s.orc.onReadIndexCompleted(c)
 				c.phase = 2
+				// mostly read at once, as SyncRead does (the later the local read,
+				// the more the replica has applied meanwhile and the less a read
+				// index that was too low shows)
+				if c.host.up && c.host.inc == c.hinc && !s.src.Chance(1, 4) {
+					c.localRead()
+				}
 			}
 		default:
 			// Timeout, Terminated, Dropped, Aborted, Rejected
